@@ -161,7 +161,7 @@ def rule_r2(ctx: Context, R: Reporter, T: Tracer):
             for (t, pol) in (_cha(sflow.cfg, at) if at is not None else []):
                 for (a, p) in _split(t, pol):
                     if isinstance(a, ast.Compare) and len(a.ops) == 1 and isinstance(a.comparators[0], ast.Constant) and a.comparators[0].value is None \
-                            and norm_text(a.left) == norm_text(arg) and ((isinstance(a.ops[0], ast.IsNot) and p) or (isinstance(a.ops[0], ast.Is) and not p)):
+                            and _same_value(s.func, a.left, arg, at) and ((isinstance(a.ops[0], ast.IsNot) and p) or (isinstance(a.ops[0], ast.Is) and not p)):
                         guarded = True
             R.check("C09.r2", "a seeding call whose argument may be None is guarded by `is not None`", guarded, s.func, s.call,
                     msg=f"{s.func.short}: `{unparse(s.call)}` can run with None (origins {[repr(o) for o in origs if o.kind == 'none'][:2]}): numpy then re-seeds the global stream from OS "
@@ -179,6 +179,16 @@ def rule_r2(ctx: Context, R: Reporter, T: Tracer):
             )
         R.check("C09.r2", f"seed argument of `{unparse(s.call)}` has only None/user/checkpoint provenance", not lits, s.func, s.call,
                 msg=f"{len(lits)} literal origin(s), see above", key=f"provenance:{s.func.short}:{norm_text(s.call)}")
+
+
+def _same_value(fi, e1: ast.expr, e2: ast.expr, at) -> bool:
+    """Textually equal, or equal after inlining uniquely defined locals."""
+    if norm_text(e1) == norm_text(e2):
+        return True
+    from ..dataflow import Resolver as _Res
+
+    r = _Res(fi.node)
+    return norm_text(r.resolve(e1, at)) == norm_text(r.resolve(e2, at))
 
 
 def _enclosing_call(o: Origin):
